@@ -6,7 +6,7 @@
 
       if not isinstance(exc, <cancelled class>):
           msg = str(exc)
-          if "<marker>" in msg.lower(): <statements>           # any number of if / elif
+          if [isinstance(exc, <ClassName>) and] "<marker>" in msg.lower(): <statements>   # any number of if / elif
           elif "<marker>" in msg.lower(): <statements> [raise]
           else: <statements> [raise]
 
@@ -29,14 +29,21 @@ def _lean_str(s):
     return json.dumps(s, ensure_ascii=False)
 
 
-def _marker_test(test, var):
-    """`"<marker>" in <var>.lower()` -> marker"""
+def _marker_test(test, var, excvar=None):
+    """`"<marker>" in <var>.lower()` -> (marker, None);
+    `isinstance(<excvar>, <ClassName>) and "<marker>" in <var>.lower()` -> (marker, "ClassName")"""
+    if isinstance(test, ast.BoolOp) and isinstance(test.op, ast.And) and len(test.values) == 2:
+        g = test.values[0]
+        if (isinstance(g, ast.Call) and getattr(g.func, "id", None) == "isinstance" and len(g.args) == 2 and not g.keywords
+                and isinstance(g.args[0], ast.Name) and g.args[0].id == excvar and isinstance(g.args[1], ast.Name)):
+            return _marker_test(test.values[1], var)[0], g.args[1].id
+        raise Untranslatable("class guard " + ast.dump(g)[:80])
     if (isinstance(test, ast.Compare) and len(test.ops) == 1 and isinstance(test.ops[0], ast.In)
             and isinstance(test.left, ast.Constant) and isinstance(test.left.value, str)):
         r = test.comparators[0]
         if (isinstance(r, ast.Call) and isinstance(r.func, ast.Attribute) and r.func.attr == "lower" and not r.args
                 and isinstance(r.func.value, ast.Name) and r.func.value.id == var):
-            return test.left.value
+            return test.left.value, None
     raise Untranslatable("marker test " + ast.dump(test)[:80])
 
 
@@ -49,13 +56,13 @@ def _raises(body):
     raise Untranslatable("branch body is not logging followed by an optional bare raise")
 
 
-def _chain(stmt, var):
-    """if/elif/else chain of marker tests -> ([(marker, raises)], else_raises)"""
+def _chain(stmt, var, excvar):
+    """if/elif/else chain of marker tests -> ([(marker, class guard or None, raises)], else_raises)"""
     markers = []
     while True:
         if not isinstance(stmt, ast.If):
             raise Untranslatable("expected an if-chain")
-        markers.append((_marker_test(stmt.test, var), _raises(stmt.body)))
+        markers.append(_marker_test(stmt.test, var, excvar) + (_raises(stmt.body),))
         rest = stmt.orelse
         if len(rest) == 1 and isinstance(rest[0], ast.If):
             stmt = rest[0]
@@ -76,7 +83,7 @@ def _not_cancelled_guard(stmt, excvar):
                               and getattr(body[0].value.func, "id", None) == "str"
                               and getattr(body[0].value.args[0], "id", None) == excvar):
         raise Untranslatable("expected `msg = str(exc)` followed by the if-chain")
-    return _chain(body[1], body[0].targets[0].id)
+    return _chain(body[1], body[0].targets[0].id, excvar)
 
 
 def _filters_of(func):
@@ -103,7 +110,8 @@ def _filters_of(func):
 
 def _lean_filter(f):
     markers, other = f
-    return "⟨[" + ", ".join(f"({_lean_str(m)}, {'true' if r else 'false'})" for m, r in markers) + f"], {'true' if other else 'false'}⟩"
+    return "⟨[" + ", ".join(f"({_lean_str(m)}, {'none' if c is None else 'some ' + _lean_str(c)}, {'true' if r else 'false'})"
+                            for m, c, r in markers) + f"], {'true' if other else 'false'}⟩"
 
 
 @translate.register("StdioExit")
@@ -130,10 +138,10 @@ namespace Verif.Gen.StdioExit
 
 def translatable : Bool := {ok}
 
-/-- `markers`: the if / elif chain `"<marker>" in str(exc).lower()` with "this branch ends in a bare raise";
-`otherwise`: the else branch ends in a bare raise -/
+/-- `markers`: the if / elif chain `[isinstance(exc, <Class>) and] "<marker>" in str(exc).lower()` - the marker, the
+class guard in front of it (if any), and "this branch ends in a bare raise"; `otherwise`: the else branch ends in a bare raise -/
 structure Filter where
-  markers : List (String × Bool)
+  markers : List (String × Option String × Bool)
   otherwise : Bool
   deriving Repr, DecidableEq
 
